@@ -185,7 +185,11 @@ func TestVerifC09Conc(t *testing.T) {
 							err = e.VSetMetadata(c09Index, id, map[string]any{"content": text(wr)})
 						case p < 65: // the field stops being text, or becomes text again
 							what = "VSetMetadata non-string " + id
-							err = e.VSetMetadata(c09Index, id, map[string]any{"content": float64(wr.Intn(9))})
+							var nonText any = float64(wr.Intn(9))
+							if wr.Chance(0.4) {
+								nonText = nil // JSON null
+							}
+							err = e.VSetMetadata(c09Index, id, map[string]any{"content": nonText})
 						case p < 75: // an update that does not touch the text
 							what = "VSetMetadata other " + id
 							err = e.VSetMetadata(c09Index, id, map[string]any{"n": float64(i)})
